@@ -12,7 +12,17 @@ from .core import AnalysisError, Repo, unparse
 
 
 class Metrics:
+    def __new__(cls, repo: Repo):
+        # one translation table per parsed tree (translations and normal forms are the expensive part)
+        if "metrics" in repo.memo:
+            return repo.memo["metrics"]
+        obj = super().__new__(cls)
+        repo.memo["metrics"] = obj
+        return obj
+
     def __init__(self, repo: Repo):
+        if getattr(self, "repo", None) is repo:
+            return
         self.repo = repo
         self.spec = load_spec()
         self.mt = MetricTranslator(repo)
